@@ -103,8 +103,10 @@ func c14R1(c *Ctx, r *Report) {
 	}
 }
 
-func c14R2(c *Ctx, r *Report) {
-	const rule = "C14-R2"
+func c14R2(c *Ctx, r *Report) { subscriptionFeedRule(c, r, "C14-R2") }
+
+// subscriptionFeedRule is shared by C14-R2 and C13-R4.
+func subscriptionFeedRule(c *Ctx, r *Report, rule string) {
 	r.SetFloor(rule, 6)
 	sends := c.sendsOnField("database.Subscription", "Feed")
 	if len(sends) != 1 {
